@@ -59,6 +59,9 @@ pub struct Ctx {
     pub replay_target: Option<u64>,
     hb_path: Option<PathBuf>,
     hb_last: Instant,
+    /// (start, case index) of the case that runs now; (seconds, case index) of the slowest so far
+    case_started: std::cell::Cell<Option<(Instant, u64)>>,
+    slowest: std::cell::Cell<(f64, u64)>,
     counter: u64,
     stratum: String,
     pub evals: u64,
@@ -95,6 +98,8 @@ impl Ctx {
             replay_target: None,
             hb_path: std::env::var("VERIF_HB").ok().map(PathBuf::from),
             hb_last: Instant::now(),
+            case_started: std::cell::Cell::new(None),
+            slowest: std::cell::Cell::new((0.0, 0)),
             counter: 0,
             stratum: "default".into(),
             evals: 0,
@@ -144,6 +149,16 @@ impl Ctx {
     /// announce the case about to run (only in trace mode: used to find the case that kills
     /// or hangs a shard)
     pub fn begin(&self, label: impl FnOnce() -> String) {
+        // wall time of the case that just ended (the harness watches its own cases: none may
+        // come near the stall threshold of the orchestrator)
+        let now = Instant::now();
+        if let Some((t0, idx)) = self.case_started.get() {
+            let d = now.duration_since(t0).as_secs_f64();
+            if d > self.slowest.get().0 {
+                self.slowest.set((d, idx));
+            }
+        }
+        self.case_started.set(Some((now, self.counter.saturating_sub(1))));
         if self.trace {
             let mut e = std::io::stderr();
             // one short line per case: the tracer reads only the tail of the file
@@ -213,6 +228,14 @@ impl Ctx {
         }
     }
     pub fn to_json(&self) -> Value {
+        let mut sl = self.slowest.get();
+        if let Some((t0, idx)) = self.case_started.get() {
+            let d = t0.elapsed().as_secs_f64();
+            if d > sl.0 {
+                sl = (d, idx);
+            }
+        }
+        let slowest_json = json!({"seconds": (sl.0 * 10.0).round() / 10.0, "case": sl.1, "shard": self.shard});
         json!({
             "evals": self.evals,
             "strata": self.strata.iter().map(|(k,(n,e))| (k.clone(), json!({"cases": n, "exhaustive": e}))).collect::<Map<String,Value>>(),
@@ -223,6 +246,7 @@ impl Ctx {
             "skipped": self.skipped,
             "inconclusive": self.inconclusive,
             "notes": self.notes,
+            "slowest_case_s": slowest_json,
         })
     }
 }
@@ -255,6 +279,7 @@ pub struct Merged {
     pub notes: BTreeMap<String, u64>,
     pub harness_errors: Vec<String>,
     pub extra: Map<String, Value>,
+    pub slowest: Value,
 }
 
 impl Merged {
@@ -272,10 +297,14 @@ impl Merged {
             notes: BTreeMap::new(),
             harness_errors: vec![],
             extra: Map::new(),
+            slowest: Value::Null,
         }
     }
     pub fn add_json(&mut self, v: &Value) {
         self.evals += v["evals"].as_u64().unwrap_or(0);
+        if v["slowest_case_s"]["seconds"].as_f64().unwrap_or(0.0) > self.slowest["seconds"].as_f64().unwrap_or(0.0) {
+            self.slowest = v["slowest_case_s"].clone();
+        }
         if let Some(m) = v["strata"].as_object() {
             for (k, s) in m {
                 let e = self.strata.entry(k.clone()).or_insert((0, false));
@@ -693,6 +722,7 @@ pub fn conclude(spec: &RunSpec, m: &Merged, wall_s: f64) -> i32 {
     }
     let exhaustive_all = !m.strata.is_empty() && m.strata.values().all(|(_, e)| *e);
     let mut coverage = json!({
+        "slowest_case": m.slowest,
         "evaluations": m.evals,
         "distinct_nontrivial": distinct,
         "rule": spec.rule,
@@ -740,7 +770,7 @@ pub fn conclude(spec: &RunSpec, m: &Merged, wall_s: f64) -> i32 {
         }
     }
     println!(
-        "SUMMARY property={} tier={} seed={} evaluations={} distinct_nontrivial={} classes={} violations(fresh)={} known_reproduced={} wall_s={:.1} exit={}",
+        "SUMMARY property={} tier={} seed={} evaluations={} distinct_nontrivial={} classes={} violations(fresh)={} known_reproduced={} slowest_case_s={} wall_s={:.1} exit={}",
         spec.prop,
         spec.tier.name(),
         spec.seed,
@@ -749,6 +779,7 @@ pub fn conclude(spec: &RunSpec, m: &Merged, wall_s: f64) -> i32 {
         m.classes.len(),
         fresh.len(),
         reproduced.len(),
+        m.slowest["seconds"].as_f64().unwrap_or(0.0),
         wall_s,
         exit
     );
